@@ -43,6 +43,7 @@ include!("../coll_inc/mapvec.rs");
 include!("../coll_inc/failing.rs");
 include!("../coll_inc/misc.rs");
 include!("../coll_inc/mutnum.rs");
+include!("../coll_inc/flatn.rs");
 
 fn main() {
     let args: Vec<String> = std::env::args().collect();
@@ -74,6 +75,7 @@ fn main() {
         run_split_profile(&mut ctx, traces);
         run_mapvec(&mut ctx);
         run_misc(&mut ctx);
+        run_flatn(&mut ctx);
         ctx.summary();
         print!("{}", ctx.out);
         return;
